@@ -161,8 +161,14 @@ impl ValueWriter for RecV<'_> {
         };
     }
     fn error(self, error: ValidationError) {
-        *self.0 = Val::Error(error.to_string());
+        *self.0 = Val::Error(error_text(error));
     }
+}
+
+/// everything a format can learn from a validation error: its message, its list of reasons, and
+/// what it says once attributed to a field (every reason separately)
+fn error_text(e: ValidationError) -> String {
+    format!("{e} | reasons {e:?} | {}", e.clone().for_field("F"))
 }
 
 #[inline(never)]
@@ -346,7 +352,7 @@ fn describe(c: &Compiled) -> Log {
                 name.clone(),
                 match v {
                     ValD::Str(s) => Val::Str(s.clone()),
-                    ValD::Error(m) => Val::Error(ValidationError::invalid(m.clone()).to_string()),
+                    ValD::Error(m) => Val::Error(error_text(vh_seq::emfx::error_of(m))),
                     ValD::Nothing => Val::Nothing,
                     ValD::Metric { obs, unit, dims, flag } => Val::Metric {
                         obs: obs.iter().map(|o| obs_bits(o.to_observation())).collect(),
@@ -417,7 +423,7 @@ fn base_entries() -> Vec<(&'static str, &'static Compiled)> {
         ),
         (
             "error-value",
-            compile(e(vec![val("E", ValD::Error(s("bad \"value\""))), val("M", metric(vec![Obs::U(1)], UnitD::None, &[], FlagD::None))]), &[]),
+            compile(e(vec![val("E", ValD::Error(s("bad \"value\""))), val("M", metric(vec![Obs::U(1)], UnitD::None, &[], FlagD::None)), val("E2", ValD::Error(s("first reason && second reason")))]), &[]),
         ),
         (
             "configs",
